@@ -69,19 +69,24 @@ else:
 
 # run the check against /repo with the patch applied
 NO_CHECK = "--no-check" in sys.argv
+t0 = time.time()
+detected, line, replay = False, "", None
+import fcntl
+os.makedirs(os.path.join(ROOT, "work"), exist_ok=True)
+_lock = open(os.path.join(ROOT, "work", ".lock"), "w")
+if not NO_CHECK:
+    fcntl.flock(_lock, fcntl.LOCK_EX)
 st = "" if NO_CHECK else sh(["git", "-C", "/repo", "status", "--porcelain"])[1].strip()
 if st:
     print("REFUSING: /repo has local changes:", st)
     sys.exit(2)
-t0 = time.time()
-detected, line, replay = False, "", None
 try:
     if NO_CHECK:
         raise KeyboardInterrupt
     ev = os.path.join(ROOT, "evidence", pid + ".json")
     ev_saved = open(ev).read() if os.path.exists(ev) else None
     rca, outa = sh(["git", "-C", "/repo", "apply", patch])
-    rcc, outc = sh([os.path.join(ROOT, "check"), pid, "--tier", tier], cwd=ROOT, timeout=7200, e=dict(os.environ))
+    rcc, outc = sh([os.path.join(ROOT, "check"), pid, "--tier", tier], cwd=ROOT, timeout=7200, e=dict(os.environ, KVERIF_LOCK_HELD="1"))
     vl = [l for l in outc.splitlines() if l.startswith("VIOLATION")]
     detected = rcc == 1 and bool(vl)
     line = vl[0] if vl else outc.splitlines()[-1] if outc.splitlines() else ""
